@@ -95,9 +95,9 @@ Theorem C09_every_seed : forall (seed : Type) (mk : seed -> list selector),
 Proof. exact build_all. Qed.
 Print Assumptions C09_every_seed.
 
-(* histories: whatever sequence of registration calls and builds (a later build starts from the inputs
-   the earlier one wrote back), a built transaction only spends UTxOs registered so far *)
-Theorem C09_history : forall c its, Forall item_sound its ->
+(* histories on a static chain: whatever sequence of registration calls and builds (a later build starts from
+   the inputs the earlier one wrote back), a built transaction only spends UTxOs registered so far *)
+Theorem C09_history : forall c its, Forall item_sound its -> Forall static its ->
   forall sel, In (BOk sel) (snd (run c empty_state its)) ->
     incl sel (flat_map (fun it => match it with
                                   | Op (AddInput u) | Op (AddScriptInput u) | Op (AddPotential u) => [u]
@@ -105,10 +105,34 @@ Theorem C09_history : forall c its, Forall item_sound its ->
                                   | _ => []
                                   end) its).
 Proof.
-  intros c its Hs sel Hin.
-  apply (run_provenance c its empty_state [] (fun x H => match H with end) Hs sel Hin).
+  intros c its Hs Hst sel Hin.
+  apply (run_provenance c its empty_state [] (fun x H => match H with end) Hs Hst sel Hin).
 Qed.
 Print Assumptions C09_history.
+
+(* histories on a chain that MOVES (SetCtx c' : from now on the context answers c'): in a build after any
+   history `pre` of registrations, builds and chain updates, every selected UTxO was handed over by the caller
+   (add_input / add_script_input / potential_inputs), or was selected by an earlier build of this builder, or is
+   reported at an address registered so far by the context in force AT THIS BUILD (last_ctx: the answer of the
+   latest update) — never by an answer remembered from an earlier query *)
+Theorem C09_history_live : forall c0 pre need sels sel, Forall sel_sound sels ->
+  build (last_ctx c0 pre) sels need (snd (reach c0 empty_state pre)) = BOk sel ->
+  incl sel (caller_utxos pre ++ earlier_selected c0 empty_state pre
+            ++ flat_map (ctx_utxos (last_ctx c0 pre)) (addr_ops pre)).
+Proof. exact history_live. Qed.
+Print Assumptions C09_history_live.
+
+(* the build of C09_history_live is the one a history performs: the context in force and the builder state
+   reached after `pre` are what `run` hands to the next Build item *)
+Theorem C09_history_live_is_run : forall pre c0 st need sels post,
+  snd (run c0 st (pre ++ Build need sels :: post))
+  = snd (run c0 st pre)
+    ++ build (fst (reach c0 st pre)) sels need (snd (reach c0 st pre))
+       :: snd (run (fst (reach c0 st pre)) (state_after (snd (reach c0 st pre))
+                     (build (fst (reach c0 st pre)) sels need (snd (reach c0 st pre)))) post)
+  /\ fst (reach c0 st pre) = last_ctx c0 pre.
+Proof. intros. split; [apply run_app_build | apply reach_ctx]. Qed.
+Print Assumptions C09_history_live_is_run.
 
 (* PARTIAL: "the caller's UTxO objects and pools are left unmodified".  What the functional model can say:
    a build changes nothing but the builder's own input list (potential / excluded / address lists are
